@@ -11,17 +11,17 @@ TMP="$(mktemp -d /tmp/rs2v_selftest.XXXXXX)"
 trap 'rm -rf "$TMP"' EXIT
 
 FILES="src/action_value.rs src/input_context/events.rs src/input_context/context_instance.rs src/input_context/context_instance/trigger_tracker.rs"
-FILES="$FILES src/input.rs src/input/input_reader.rs"
+FILES="$FILES src/input.rs src/input/input_reader.rs src/input_context/input_bind.rs"
 for f in "$REPO"/src/input_context/input_condition/*.rs "$REPO"/src/input_context/input_modifier/*.rs; do
   FILES="$FILES ${f#$REPO/}"
 done
 
 # the compiled model files the tie needs
-MODEL="Model/Num Model/Value Model/State Model/Tracker Model/Cond Model/Modif Model/Reader Proofs/ValueP"
+MODEL="Model/Num Model/Value Model/State Model/Tracker Model/Cond Model/Modif Model/Reader Model/Action Proofs/ValueP"
 # compile order of the regenerated files and the tie files
-CHAIN="Generated/GlamTbl Generated/ValueSrc Generated/EventsSrc Generated/TrackerSrc Proofs/SrcTieP Generated/DataSrc Generated/CondSrc Generated/GlamTbl2 Generated/ModifSrc Proofs/SrcTie2P Generated/BevyTbl Generated/ReaderSrc Proofs/SrcTie3P"
+CHAIN="Generated/GlamTbl Generated/ValueSrc Generated/EventsSrc Generated/TrackerSrc Proofs/SrcTieP Generated/DataSrc Generated/CondSrc Generated/GlamTbl2 Generated/ModifSrc Proofs/SrcTie2P Generated/BevyTbl Generated/ReaderSrc Proofs/SrcTie3P Generated/ActionSrc Proofs/SrcTie4P"
 ( cd "$COQ" && [ -f Makefile ] || coq_makefile -f _CoqProject -o Makefile >/dev/null 2>&1
-  cd "$COQ" && timeout 1500 make Model/Reader.vo Proofs/ValueP.vo Proofs/SrcTie2P.vo Proofs/SrcTie3P.vo >/dev/null 2>&1 )
+  cd "$COQ" && timeout 1500 make Model/Reader.vo Proofs/ValueP.vo Proofs/SrcTie2P.vo Proofs/SrcTie3P.vo Proofs/SrcTie4P.vo Model/Action.vo >/dev/null 2>&1 )
 for f in $MODEL; do
   [ -f "$COQ/$f.vo" ] || { echo "missing $COQ/$f.vo (build the development first)"; exit 1; }
 done
@@ -48,7 +48,7 @@ tie_compiles() {
   local W="$TMP/coqwork" dirty=no
   rm -rf "$W"; mkdir -p "$W/Model" "$W/Proofs" "$W/Generated"
   for f in $MODEL; do cp "$COQ/$f.vo" "$W/$f.vo"; done
-  cp "$COQ/Proofs/SrcTieP.v" "$COQ/Proofs/SrcTie2P.v" "$COQ/Proofs/SrcTie3P.v" "$W/Proofs/"
+  cp "$COQ/Proofs/SrcTieP.v" "$COQ/Proofs/SrcTie2P.v" "$COQ/Proofs/SrcTie3P.v" "$COQ/Proofs/SrcTie4P.v" "$W/Proofs/"
   cp "$1"/*.v "$W/Generated/"
   for f in $CHAIN; do
     [ -f "$W/$f.v" ] || continue
@@ -172,6 +172,19 @@ run_edit reader-reset-motion "$IR" 'self.mouse_motion = false;' 'self.mouse_moti
 run_edit input-shift-bit "src/input.rs" 'const SHIFT = 0b00000100;' 'const SHIFT = 0b00010000;'
 run_edit input-variant-order "src/input.rs" '[`ActionValue::Axis2D`](crate::action_value::ActionValue::Axis2D).\n    MouseMotion { mod_keys: ModKeys },' '[`ActionValue::Axis2D`](crate::action_value::ActionValue::Axis2D).\n    MouseWheel { mod_keys: ModKeys },' '[`ActionValue::Axis1D`](crate::action_value::ActionValue::Axis1D).\n    MouseWheel { mod_keys: ModKeys },' '[`ActionValue::Axis1D`](crate::action_value::ActionValue::Axis1D).\n    MouseMotion { mod_keys: ModKeys },'
 
+# ---- fourth wave: ActionBind::update
+run_edit action-combine-to-overwrite "$CI" 'tracker.combine(current_tracker, self.accumulation);' 'tracker.overwrite(current_tracker);'
+run_edit action-drop-buffer-clear "$CI" 'self.consume_buffer.clear();\n                        self.consume_buffer.push(binding.input);' 'self.consume_buffer.push(binding.input);'
+run_edit action-consume-on-none "$CI" 'if state != ActionState::None {\n                for &input' 'if state == ActionState::None {\n                for &input'
+run_edit action-events-gate "$CI" 'if !tracker.events_blocked() {' 'if tracker.events_blocked() {'
+run_edit action-skip-none "$CI" 'if current_state == ActionState::None {' 'if current_state != ActionState::None {'
+run_edit action-ignored-stays "$CI" 'binding.ignored = false;' 'binding.ignored = true;'
+run_edit action-less-greater "$CI" 'Ordering::Less => (),' 'Ordering::Greater => (),' 'Ordering::Greater => {' 'Ordering::Less => {'
+run_edit action-drop-continue "$CI" 'if reader.raw_value(binding.input).as_bool() {\n                    continue;' 'if reader.raw_value(binding.input).as_bool() {'
+run_edit action-drop-convert "$CI" 'let value = tracker.value().convert(self.dim);' 'let value = tracker.value();'
+run_edit action-conditions-before-modifiers "$CI" 'tracker.apply_modifiers(actions, time, &mut self.modifiers);\n        tracker.apply_conditions(actions, time, &mut self.conditions);' 'tracker.apply_conditions(actions, time, &mut self.conditions);\n        tracker.apply_modifiers(actions, time, &mut self.modifiers);'
+run_edit action-early-continue "$CI" 'let mut current_tracker = TriggerTracker::new(value);' 'if value.as_bool() { continue; }\n            let mut current_tracker = TriggerTracker::new(value);'
+
 # ---- outside the subset: must be reported, not guessed
 run_unsupported() {
   local name="$1" file="$2"
@@ -192,6 +205,7 @@ run_unsupported unsupported-while-loop "$CD/pulse.rs" 'self.timer.reset();\n\n  
 run_unsupported unsupported-lost-mutation "$CD/hold.rs" 'let is_first_trigger = !self.fired;' 'let is_first_trigger = if self.fired { self.fired = false; false } else { true };'
 run_unsupported unsupported-closure-capture "$IR" '.is_ok_and(|gamepad| gamepad.pressed(button)),' '.is_ok_and(move |gamepad| gamepad.pressed(button)),'
 run_unsupported unsupported-bevy-call "$IR" '&& self.keys.pressed(key)' '&& self.keys.just_pressed(key)'
+run_unsupported unsupported-action-early-return "$CI" 'let state = tracker.state();\n        let value = tracker.value()' 'let state = tracker.state();\n        if state == ActionState::None { return; }\n        let value = tracker.value()'
 run_unsupported unsupported-extra-loop-statement "$TT" '        for condition in conditions {' '        self.blocked = false;\n        for condition in conditions {'
 
 if [ "$FAIL" = 0 ]; then echo "selftest: PASS"; else echo "selftest: FAIL"; exit 1; fi
